@@ -1,4 +1,5 @@
 """Shared machinery of C11 and C12: scheduled multi-thread scenarios."""
+import gc
 import os
 import struct
 
@@ -33,6 +34,9 @@ def do_call(ws, call):
 
 class Outcome(object):
     pass
+
+
+_RUNS = [0]
 
 
 def run_schedule(scn_def, schedule, keep_log=False):
@@ -108,6 +112,10 @@ def run_schedule(scn_def, schedule, keep_log=False):
                         res.append((call, type(error).__name__, [c.__name__ for c in type(error).__mro__]))
             return fn
 
+        # cyclic garbage from earlier runs must not be finalised at an arbitrary moment
+        # inside a traced worker (Parser.__del__ runs lomond code = extra steps): an
+        # execution has to be a pure function of the schedule
+        gc.disable()
         for name, calls in scn_def["threads"].items():
             sched.spawn(name, make_worker(name, calls))
         loop_events = []
@@ -138,6 +146,10 @@ def run_schedule(scn_def, schedule, keep_log=False):
         scn.pop("_idle_hook", None)
         simnet.CURRENT = None
         schedmod.ACTIVE = None
+        gc.enable()
+        _RUNS[0] += 1
+        if _RUNS[0] % 200 == 0:
+            gc.collect()
     return out
 
 
